@@ -23,8 +23,6 @@ from vlib import core
 from gen import host as H
 
 MODULES = ["HmsProofs.C17"]
-if os.environ.get("VERIF_DRV"):      # development only: a scratch driver while the shared one is being rebuilt
-    core.DRV = os.environ["VERIF_DRV"]
 
 PROCS = (1, 2, 4, 8)
 
